@@ -2,40 +2,49 @@
 
 package sqlc
 
-// C06 correspondence harness: drives the real sqlc.CachedConn -> cache.cacheNode -> redis.Redis -> miniredis
-// stack with a harness-owned fake database (closures counting queries), one operation per trace line.
+// C06 correspondence harness: drives the real sqlc.CachedConn (sqlc.NewConn -> cache.New: a plain cacheNode for
+// one node, a cacheCluster with consistent-hash dispatch for several) -> cacheNode -> redis.Redis (node-type or
+// cluster-type client) -> one miniredis per cache node, with a harness-owned fake database (closures counting
+// queries), one operation per trace line.
 //
-//   faults    every cache command (GET/SET/DEL) issued by an operation passes a go-redis hook that fails the
-//             i-th command of the operation iff bit i of the op's `c=` mask is 1 (for `tick`: all or none);
+//   nodes     section cfg `nodes=<n> type=<node|cluster> place=<key>:<node>,...`: n miniredis servers; the cache
+//             is built by the real constructors from a cache.CacheConf naming them. Which node the dispatcher
+//             sends a key to depends on pointer values (the ring hashes fmt.Sprint of the cacheNode), so the
+//             harness makes the placement an INPUT: the Redis key of token `p1` is "p1#<salt>" with the
+//             smallest salt for which the dispatcher (observed through cache.VerifC06NodeAddr) picks the node
+//             the section's `place` asks for. Entries are dumped per node, so a key that ends up on another
+//             node than the one probed shows up in the trace.
+//   faults    every GET/SET/DEL reaches its miniredis through a server-side pre-hook that answers with an error
+//             instead of executing it when the op text says so: reads/sets `c=<mask>`: the i-th command of the
+//             operation (issue order); exec/del `c=<m0>/<m1>/...`: the i-th DEL sent to node k fails iff bit i
+//             of m_k (cacheCluster.DelCtx ranges over a map, so only the per-node order is deterministic);
+//             `tick n c=<bits>`: every command to node k fails iff bit k (node down).
 //             `db=1` makes the (single) database call of the operation fail.
-//   jitter    the node's mathx.Unstable draws from a scripted rand.Source: `j=<0..1000>` makes Float64()
+//   jitter    every node's mathx.Unstable draws from a scripted rand.Source: `j=<0..1000>` makes Float64()
 //             return j/1000 (1000 = the largest draw below 1), so the TTL is a function of the op text.
-//   time      miniredis time moves only by `ft <ms>`; the cleaner's timing wheel is swapped for a wheel on a
-//             harness-owned ticker (cache.VerifC06SwapCleaner) and moves only by `tick <n>`.
+//   time      miniredis time moves only by `ft <ms>` (all nodes); the cleaner's timing wheel is swapped for a
+//             wheel on a harness-owned ticker (cache.VerifC06SwapCleaner) and moves only by `tick <n>`.
 //   breaker   redis.Redis wraps every command in a circuit breaker; its rolling window reads timex, so the
 //             harness installs the virtual clock and advances it by 20 s per operation / tick (window 10 s):
-//             the breaker never sees more than one operation's failures.
-// After every operation the whole cache is dumped (key=value@ttl-ms, sorted).
+//             and by 20 s at every command that reaches a server: a breaker window never holds more than the
+//             requests in flight (at most 5, the cleaner's workers: below the breaker's protection threshold),
+//             so the breaker — whose drops are random — never drops.
+// After every operation every node's cache is dumped (node/key=value@ttl-ms, sorted).
 
 import (
 	"context"
 	"database/sql"
-	"encoding/hex"
 	"encoding/json"
 	"errors"
 	"fmt"
-	"sort"
 	"strconv"
 	"strings"
 	"sync"
 	"testing"
 	"time"
 
-	"github.com/alicebob/miniredis/v2"
-	red "github.com/redis/go-redis/v9"
 	"github.com/zeromicro/go-zero/core/logx"
 	"github.com/zeromicro/go-zero/core/stores/cache"
-	"github.com/zeromicro/go-zero/core/stores/redis"
 	"github.com/zeromicro/go-zero/core/stores/sqlx"
 	"github.com/zeromicro/go-zero/core/timex"
 	"github.com/zeromicro/go-zero/internal/verifh"
@@ -48,101 +57,6 @@ type c06Row struct {
 }
 
 var errC06DB = errors.New("verif: database down")
-
-const c06Injected = "ERR verif injected outage"
-
-type c06Src struct{ v int64 }
-
-func (s *c06Src) Int63() int64 { return s.v }
-func (s *c06Src) Seed(int64)   {}
-
-func (s *c06Src) setJ(j int) {
-	// rand.Rand.Float64 is float64(Int63()) / 2^63 (redrawn if it rounds to 1)
-	if j >= 1000 {
-		s.v = 1<<63 - 1024 // the largest draw: 1 - 2^-53
-	} else {
-		s.v = int64(j) * ((1 << 62) / 500)
-	}
-}
-
-type c06Harness struct {
-	mu      sync.Mutex
-	mask    string
-	all     bool // tick mode: every command fails iff allFail
-	allFail bool
-	n       int
-	log     []string
-}
-
-func (h *c06Harness) begin(mask string, all, allFail bool) {
-	h.mu.Lock()
-	h.mask, h.all, h.allFail, h.n, h.log = mask, all, allFail, 0, nil
-	h.mu.Unlock()
-}
-
-func (h *c06Harness) next(name string) bool {
-	h.mu.Lock()
-	defer h.mu.Unlock()
-	fail := false
-	if h.all {
-		fail = h.allFail
-	} else if h.n < len(h.mask) {
-		fail = h.mask[h.n] == '1'
-	}
-	h.n++
-	if fail {
-		h.log = append(h.log, name+":fail")
-	} else {
-		h.log = append(h.log, name+":ok")
-	}
-	return fail
-}
-
-func (h *c06Harness) cmds(sorted bool) string {
-	h.mu.Lock()
-	defer h.mu.Unlock()
-	if len(h.log) == 0 {
-		return "-"
-	}
-	l := append([]string(nil), h.log...)
-	if sorted {
-		sort.Strings(l)
-	}
-	return strings.Join(l, ",")
-}
-
-type c06Hook struct{ h *c06Harness }
-
-func (k c06Hook) DialHook(next red.DialHook) red.DialHook { return next }
-func (k c06Hook) ProcessPipelineHook(next red.ProcessPipelineHook) red.ProcessPipelineHook {
-	return next
-}
-func (k c06Hook) ProcessHook(next red.ProcessHook) red.ProcessHook {
-	return func(ctx context.Context, cmd red.Cmder) error {
-		name := cmd.Name()
-		switch name {
-		case "get", "set", "del", "setnx", "setex":
-		default:
-			return next(ctx, cmd)
-		}
-		if name == "set" {
-			// SETEX / SETNX EX are sent as SET with EX / NX arguments
-			for _, a := range cmd.Args() {
-				if s, ok := a.(string); ok && (s == "nx" || s == "NX") {
-					name = "setnx"
-				}
-			}
-		}
-		if k.h.next(name) {
-			err := errors.New(c06Injected)
-			cmd.SetErr(err)
-			return err
-		}
-		return next(ctx, cmd)
-	}
-}
-
-func c06Key(tok string) string { return tok } // cache keys are the tokens themselves: p<pk>, x<a>
 
 func c06Val(tok string) (any, string) {
 	// returns the Go value to hand to SetCache and the raw string for `raw`
@@ -162,26 +76,6 @@ func c06Val(tok string) (any, string) {
 	panic("bad value token " + tok)
 }
 
-func c06Canon(raw string) string {
-	if raw == "*" {
-		return "*"
-	}
-	if strings.HasPrefix(raw, "!junk") {
-		if _, err := strconv.Atoi(raw[5:]); err == nil {
-			return "j:" + raw[5:]
-		}
-	}
-	if n, err := strconv.Atoi(raw); err == nil && strconv.Itoa(n) == raw {
-		return "k:" + raw
-	}
-	var r c06Row
-	if n, err := fmt.Sscanf(raw, `{"Id":%d,"V":%d,"A":%d}`, &r.Id, &r.V, &r.A); err == nil && n == 3 &&
-		fmt.Sprintf(`{"Id":%d,"V":%d,"A":%d}`, r.Id, r.V, r.A) == raw {
-		return fmt.Sprintf("r:%d:%d:%d", r.Id, r.V, r.A)
-	}
-	return "raw:" + hex.EncodeToString([]byte(raw))
-}
-
 func c06Err(err error) string {
 	switch {
 	case err == nil:
@@ -190,7 +84,7 @@ func c06Err(err error) string {
 		return "notfound"
 	case errors.Is(err, errC06DB):
 		return "dberr"
-	case strings.Contains(err.Error(), c06Injected):
+	case strings.Contains(err.Error(), cache.VerifC06Injected):
 		return "cacheerr"
 	}
 	return "err:" + strings.ReplaceAll(err.Error(), " ", "_")
@@ -211,14 +105,9 @@ func TestVerifC06(t *testing.T) {
 	timex.VerifSetNow(time.Hour)
 	defer timex.VerifClockOff()
 	verifh.Run(t, secs, func(cfg verifh.Cfg) (func(op []string) string, func()) {
-		mr := miniredis.NewMiniRedis()
-		if err := mr.Start(); err != nil {
-			panic(err)
-		}
 		// a fresh cleaner wheel per section: pending retries of one section never leak into the next
 		cleaner := cache.VerifC06SwapCleaner()
-		h := &c06Harness{}
-		rds := redis.New(mr.Addr(), redis.WithHook(c06Hook{h}))
+		env, conf := cache.VerifC06NewEnv(cfg.Int("nodes", 1), cfg.Str("type", "node"), cfg.Str("place", "-"))
 		var opts []cache.Option
 		if e := cfg.Int("exp", 0); e != 0 {
 			opts = append(opts, cache.WithExpiry(time.Duration(e)*time.Millisecond))
@@ -226,47 +115,29 @@ func TestVerifC06(t *testing.T) {
 		if e := cfg.Int("nf", 0); e != 0 {
 			opts = append(opts, cache.WithNotFoundExpiry(time.Duration(e)*time.Millisecond))
 		}
-		cc := NewNodeConn(nil, rds, opts...)
-		src := &c06Src{}
-		cache.VerifC06SetJitterSource(cc.cache, src)
+		cc := NewConn(nil, conf, opts...)
+		env.Attach(cc.cache)
+		key, keysOf, dump := env.Key, env.Keys, env.Dump
 
 		rows := map[int]c06Row{}
 		idx := map[int]int{}
 		queries := 0
 		ctx := context.Background()
-		keyer := func(primary any) string { return fmt.Sprintf("p%v", primary) }
-
-		dump := func() string {
-			keys := mr.Keys()
-			sort.Strings(keys)
-			out := make([]string, 0, len(keys))
-			for _, k := range keys {
-				v, err := mr.Get(k)
-				if err != nil {
-					v = "?" + err.Error()
-				}
-				ttl := "inf"
-				if d := mr.TTL(k); d > 0 {
-					ttl = strconv.FormatInt(int64(d/time.Millisecond), 10)
-				}
-				out = append(out, fmt.Sprintf("%s=%s@%s", k, c06Canon(v), ttl))
-			}
-			return strings.Join(out, " ")
-		}
+		keyer := func(primary any) string { return key(fmt.Sprintf("p%v", primary)) }
 
 		step := func(op []string) string {
 			timex.VerifAdvance(20 * time.Second)
-			src.setJ(verifh.Atoi(c06Opt(op, "j", "500")))
+			env.Jitter.SetJ(verifh.Atoi(c06Opt(op, "j", "500")))
 			dbfail := c06Opt(op, "db", "0") == "1"
-			h.begin(c06Opt(op, "c", ""), false, false)
+			env.Begin(cache.VerifC06ModeOrder, c06Opt(op, "c", ""))
 			queries = 0
 			res := ""
-			sortCmds := false
+			how := "order"
 			switch op[0] {
 			case "take":
 				pk := verifh.Atoi(op[1][1:])
 				var v c06Row
-				err := cc.QueryRowCtx(ctx, &v, c06Key(op[1]), func(ctx context.Context, conn sqlx.SqlConn, v any) error {
+				err := cc.QueryRowCtx(ctx, &v, key(op[1]), func(ctx context.Context, conn sqlx.SqlConn, v any) error {
 					queries++
 					if dbfail {
 						return errC06DB
@@ -286,6 +157,7 @@ func TestVerifC06(t *testing.T) {
 				// concurrent readers of one key: the load runs inside the shared SingleFlight, so at most one
 				// database query is in flight and every reader gets the same result
 				pk := verifh.Atoi(op[1][1:])
+				rkey := key(op[1]) // resolved here: the map behind key() is not for concurrent use
 				n := verifh.Atoi(c06Opt(op, "n", "4"))
 				var mu sync.Mutex
 				inflight, maxInflight, total, started := 0, 0, 0, 0
@@ -299,7 +171,7 @@ func TestVerifC06(t *testing.T) {
 						started++
 						mu.Unlock()
 						var v c06Row
-						err := cc.QueryRowCtx(ctx, &v, c06Key(op[1]), func(ctx context.Context, conn sqlx.SqlConn, v any) error {
+						err := cc.QueryRowCtx(ctx, &v, rkey, func(ctx context.Context, conn sqlx.SqlConn, v any) error {
 							mu.Lock()
 							inflight++
 							total++
@@ -352,7 +224,7 @@ func TestVerifC06(t *testing.T) {
 			case "qindex":
 				a := verifh.Atoi(op[1][1:])
 				var v c06Row
-				err := cc.QueryRowIndexCtx(ctx, &v, c06Key(op[1]), keyer,
+				err := cc.QueryRowIndexCtx(ctx, &v, key(op[1]), keyer,
 					func(ctx context.Context, conn sqlx.SqlConn, v any) (any, error) {
 						queries++
 						if dbfail {
@@ -403,14 +275,14 @@ func TestVerifC06(t *testing.T) {
 			case "get":
 				if op[1][0] == 'p' {
 					var v c06Row
-					err := cc.GetCacheCtx(ctx, c06Key(op[1]), &v)
+					err := cc.GetCacheCtx(ctx, key(op[1]), &v)
 					res = c06Err(err)
 					if err == nil {
 						res = fmt.Sprintf("val:r:%d:%d:%d", v.Id, v.V, v.A)
 					}
 				} else {
 					var v any
-					err := cc.GetCacheCtx(ctx, c06Key(op[1]), &v)
+					err := cc.GetCacheCtx(ctx, key(op[1]), &v)
 					res = c06Err(err)
 					if err == nil {
 						f, ok := v.(json.Number)
@@ -422,10 +294,9 @@ func TestVerifC06(t *testing.T) {
 					}
 				}
 			case "exec":
-				var keys []string
-				if op[1] != "-" {
-					keys = strings.Split(op[1], ",")
-				}
+				keys := keysOf(op[1])
+				env.Begin(cache.VerifC06ModeNode, c06Opt(op, "c", ""))
+				how = "node"
 				w := strings.Split(op[2], ":")
 				_, err := cc.ExecCtx(ctx, func(ctx context.Context, conn sqlx.SqlConn) (sql.Result, error) {
 					queries++
@@ -453,45 +324,41 @@ func TestVerifC06(t *testing.T) {
 				}, keys...)
 				res = c06Err(err)
 			case "del":
-				var keys []string
-				if op[1] != "-" {
-					keys = strings.Split(op[1], ",")
-				}
+				keys := keysOf(op[1])
+				env.Begin(cache.VerifC06ModeNode, c06Opt(op, "c", ""))
+				how = "node"
 				res = c06Err(cc.DelCacheCtx(ctx, keys...))
 			case "set":
 				v, _ := c06Val(op[2])
-				res = c06Err(cc.SetCacheCtx(ctx, c06Key(op[1]), v))
+				res = c06Err(cc.SetCacheCtx(ctx, key(op[1]), v))
 			case "setx":
 				v, _ := c06Val(op[2])
-				res = c06Err(cc.SetCacheWithExpireCtx(ctx, c06Key(op[1]), v, time.Duration(verifh.Atoi64(op[3]))*time.Millisecond))
+				res = c06Err(cc.SetCacheWithExpireCtx(ctx, key(op[1]), v, time.Duration(verifh.Atoi64(op[3]))*time.Millisecond))
 			case "raw":
 				_, raw := c06Val(op[2])
-				if err := mr.Set(c06Key(op[1]), raw); err != nil {
-					panic(err)
-				}
-				mr.SetTTL(c06Key(op[1]), time.Duration(verifh.Atoi64(op[3]))*time.Millisecond)
+				env.Raw(op[1], raw, time.Duration(verifh.Atoi64(op[3]))*time.Millisecond)
 				res = "ok"
 			case "ft":
-				mr.FastForward(time.Duration(verifh.Atoi64(op[1])) * time.Millisecond)
+				env.FastForward(time.Duration(verifh.Atoi64(op[1])) * time.Millisecond)
 				res = "ok"
 			case "tick":
 				n := verifh.Atoi(op[1])
-				h.begin("", true, c06Opt(op, "c", "0") == "1")
+				env.Begin(cache.VerifC06ModeDown, c06Opt(op, "c", "0"))
 				for i := 0; i < n; i++ {
 					timex.VerifAdvance(20 * time.Second)
 					cleaner.Tick()
 				}
-				sortCmds = true
+				how = "text"
 				res = "ok"
 			default:
 				return "bad-op"
 			}
 			cleaner.Sync()
-			return fmt.Sprintf("%s q=%d cmds=%s | %s", res, queries, h.cmds(sortCmds), dump())
+			return fmt.Sprintf("%s q=%d cmds=%s | %s", res, queries, env.Cmds(how), dump())
 		}
 		return step, func() {
 			cleaner.Close()
-			mr.Close()
+			env.Close()
 		}
 	})
 }
@@ -527,7 +394,7 @@ func (d *c06GenDB) write(w string) []string {
 }
 
 func c06Mask(r *verifh.Rng, n int) string {
-	switch r.Intn(10) {
+	switch r.Intn(12) {
 	case 0, 1, 2, 3, 4, 5, 6:
 		return ""
 	case 7:
@@ -538,11 +405,46 @@ func c06Mask(r *verifh.Rng, n int) string {
 			b[i] = "01"[r.Intn(2)]
 		}
 		return " c=" + string(b)
+	case 9:
+		// everything after the i-th command fails: the node of a later command is down
+		return " c=" + r.PickS("01", "001", "011", "0011", "0111")
 	default:
 		b := []byte(strings.Repeat("0", n))
 		b[r.Intn(n)] = '1'
 		return " c=" + string(b)
 	}
+}
+
+// c06DelMask draws the per-node outcome masks of an exec / del with up to nk keys over `nodes` nodes:
+// no fault, one node down (every DEL to it fails) while the others are up, all nodes down, only the
+// first / only a later DEL of a node failing, random bits.
+func c06DelMask(r *verifh.Rng, nodes, nk int) string {
+	ms := make([]string, nodes)
+	switch r.Intn(16) {
+	case 0, 1, 2, 3, 4, 5, 6:
+		return ""
+	case 7, 8:
+		ms[r.Intn(nodes)] = strings.Repeat("1", nk)
+	case 9:
+		for i := range ms {
+			ms[i] = strings.Repeat("1", nk)
+		}
+	case 10, 11:
+		ms[r.Intn(nodes)] = "1"
+	case 12, 13:
+		b := []byte(strings.Repeat("0", nk))
+		b[r.Range(1, nk-1)] = '1'
+		ms[r.Intn(nodes)] = string(b)
+	default:
+		for i := range ms {
+			b := make([]byte, nk)
+			for k := range b {
+				b[k] = "01"[r.Intn(2)]
+			}
+			ms[i] = string(b)
+		}
+	}
+	return " c=" + strings.Join(ms, "/")
 }
 
 func c06J(r *verifh.Rng) string {
@@ -567,7 +469,7 @@ func c06DBFault(r *verifh.Rng) string {
 
 // the scenario of DESIGN section 7 #9, replayed on every run: a failed DEL during Exec leaves the old row
 // in the cache until a retry of the cleaner succeeds.
-var c06StaleScenario = verifh.Section{Cfg: "exp=20000 nf=3000 stale=report", Ops: []string{
+var c06StaleScenario = verifh.Section{Cfg: "exp=20000 nf=3000 stale=report nodes=1 type=node place=-", Ops: []string{
 	"exec p1,x1 put:1:10:1", "take p1 j=500", "qindex x1 j=0",
 	"exec p1,x1 put:1:11:1 c=1", "take p1 j=500", "qindex x1 j=500",
 	"tick 1 c=1", "take p1", "tick 4 c=0", "take p1", "tick 1 c=0", "take p1 j=1000", "qindex x1 j=1000",
@@ -576,9 +478,21 @@ var c06StaleScenario = verifh.Section{Cfg: "exp=20000 nf=3000 stale=report", Ops
 	"tick 1 c=1", "tick 3600 c=0", "take p1", "ft 18999", "take p1", "ft 1", "take p1", "ft 3000", "take p1",
 }}
 
+// cluster-type Redis behind a two-node cacheCluster, replayed on every run: the per-key DEL loop with the
+// first / a later DEL failing, one node down while the other is up, retries per node.
+var c06ClusterScenario = verifh.Section{Cfg: "exp=20000 nf=3000 stale=report nodes=2 type=cluster place=p1:0,x1:1,p2:0,x2:0", Ops: []string{
+	"exec p1,x1 put:1:10:1", "exec p2,x2 put:2:20:2", "qindex x1 j=500", "qindex x2 j=500",
+	// node 0 loops over p1, p2, x2: the DEL of p1 fails, the two after it must still run
+	"del p1,p2,x2,x1 c=100/0", "tick 1 c=00", "qindex x1 j=0", "qindex x2 j=1000",
+	// node 1 down during the Exec: x1 keeps its entry, p1 (node 0) is invalidated
+	"exec p1,x1 put:1:11:1 c=/1", "take p1 j=500", "qindex x1 j=500", "tick 1 c=01", "tick 4 c=01", "tick 1 c=00", "qindex x1",
+	// a later DEL of the loop fails, the index moves to another row
+	"exec p2,x2,x1 put:2:21:1 c=010/0", "qindex x2", "qindex x1 j=500", "tick 1 c=10", "tick 5 c=00", "qindex x2", "take p2",
+}}
+
 func c06Gen(r *verifh.Rng) []verifh.Section {
-	secs := []verifh.Section{c06StaleScenario}
-	nsec := verifh.Scale(40, 400)
+	secs := []verifh.Section{c06StaleScenario, c06ClusterScenario}
+	nsec := verifh.Scale(44, 400)
 	for i := 0; i < nsec; i++ {
 		exp := r.Pick(0, 20000, 2500, 1000, 60000, 7000)
 		nf := r.Pick(0, 1000, 3000, 10000)
@@ -592,18 +506,58 @@ func c06Gen(r *verifh.Rng) []verifh.Section {
 		db := &c06GenDB{rows: map[int][2]int{}, idx: map[int]int{}}
 		nk := r.Range(1, 3)
 		pkey := func() int { return r.Intn(nk) }
+		// topology: one node (plain cacheNode) or a cacheCluster of 2..3, node-type or cluster-type Redis;
+		// placement: everything on one node / primary keys and index keys apart / random
+		nodes := r.Pick(1, 1, 2, 2, 3)
+		typ := r.PickS("node", "cluster", "cluster")
+		var pl []string
+		if nodes > 1 {
+			mode := r.Intn(4)
+			for k := 0; k < nk; k++ {
+				a, b := r.Intn(nodes), r.Intn(nodes)
+				switch mode {
+				case 0:
+					a, b = 1, 1
+				case 1:
+					b = (a + 1) % nodes
+				}
+				pl = append(pl, fmt.Sprintf("p%d:%d", k, a), fmt.Sprintf("x%d:%d", k, b))
+			}
+		}
+		place := "-"
+		if len(pl) > 0 {
+			place = strings.Join(pl, ",")
+		}
+		downBits := func() string {
+			b := make([]byte, nodes)
+			switch r.Intn(6) {
+			case 0:
+				for k := range b {
+					b[k] = '1'
+				}
+			case 1:
+				for k := range b {
+					b[k] = "01"[r.Intn(2)]
+				}
+			default:
+				for k := range b {
+					b[k] = '0'
+				}
+			}
+			return string(b)
+		}
 		var ops []string
 		nops := r.Range(10, verifh.Scale(60, 90))
 		val := 0
 		for len(ops) < nops {
 			switch x := r.Intn(100); {
-			case x < 28:
+			case x < 26:
 				ops = append(ops, fmt.Sprintf("take p%d%s%s%s", pkey(), c06J(r), c06Mask(r, 3), c06DBFault(r)))
-			case x < 42:
+			case x < 40:
 				ops = append(ops, fmt.Sprintf("qindex x%d%s%s%s", pkey(), c06J(r), c06Mask(r, 4), c06DBFault(r)))
-			case x < 44:
+			case x < 42:
 				ops = append(ops, fmt.Sprintf("ctake p%d n=%d%s%s", pkey(), r.Range(2, 6), c06J(r), c06DBFault(r)))
-			case x < 64:
+			case x < 62:
 				val++
 				w := fmt.Sprintf("put:%d:%d:%d", pkey(), val, pkey())
 				if r.Chance(1, 4) {
@@ -623,29 +577,35 @@ func c06Gen(r *verifh.Rng) []verifh.Section {
 					}
 					keys = cp.write(w)
 				}
-				if r.Chance(1, 10) {
+				switch r.Intn(12) {
+				case 0:
 					// a write that does not name every affected key (outside the property's proviso)
 					keys = keys[:r.Intn(len(keys))]
+				case 1:
+					// the keys in another order
+					for k := len(keys) - 1; k > 0; k-- {
+						o := r.Intn(k + 1)
+						keys[k], keys[o] = keys[o], keys[k]
+					}
+				case 2:
+					// a key named twice / a key that is not affected
+					keys = append(keys, r.PickS(keys[0], fmt.Sprintf("p%d", pkey()), fmt.Sprintf("x%d", pkey())))
 				}
 				ks := "-"
 				if len(keys) > 0 {
 					ks = strings.Join(keys, ",")
 				}
-				m := ""
-				if r.Chance(1, 4) {
-					m = " c=1"
-				}
-				ops = append(ops, fmt.Sprintf("exec %s %s%s%s", ks, w, m, dbf))
+				ops = append(ops, fmt.Sprintf("exec %s %s%s%s", ks, w, c06DelMask(r, nodes, 4), dbf))
 			case x < 69:
-				ks := fmt.Sprintf("p%d", pkey())
-				if r.Bool() {
-					ks += fmt.Sprintf(",x%d", pkey())
+				var keys []string
+				for k := r.Pick(1, 1, 2, 2, 3, 4); k > 0; k-- {
+					keys = append(keys, fmt.Sprintf("%s%d", r.PickS("p", "x"), pkey()))
 				}
-				m := ""
-				if r.Chance(1, 3) {
-					m = " c=1"
+				ks := strings.Join(keys, ",")
+				if r.Chance(1, 12) {
+					ks = "-"
 				}
-				ops = append(ops, fmt.Sprintf("del %s%s", ks, m))
+				ops = append(ops, fmt.Sprintf("del %s%s", ks, c06DelMask(r, nodes, 4)))
 			case x < 74:
 				pk := pkey()
 				key, v := fmt.Sprintf("p%d", pk), fmt.Sprintf("r:%d:%d:%d", pk, 900+r.Intn(5), pkey())
@@ -670,7 +630,7 @@ func c06Gen(r *verifh.Rng) []verifh.Section {
 					key = fmt.Sprintf("x%d", pkey())
 				}
 				ops = append(ops, fmt.Sprintf("raw %s j:%d %d", key, r.Intn(9), r.Pick(1000, 5000, 100000)))
-			case x < 90:
+			case x < 89:
 				d := r.Pick(1, 500, 999, 1000, 1001, 5000, n*95/100, n, n*105/100, e*95/100-1, e*95/100, e, e*105/100, e*105/100+5000, r.Range(1, 2*n))
 				if d < 1 {
 					d = 1
@@ -681,14 +641,10 @@ func c06Gen(r *verifh.Rng) []verifh.Section {
 				if verifh.Thorough() && r.Chance(1, 20) {
 					nt = 3600
 				}
-				c := 0
-				if r.Chance(1, 3) {
-					c = 1
-				}
-				ops = append(ops, fmt.Sprintf("tick %d c=%d", nt, c))
+				ops = append(ops, fmt.Sprintf("tick %d c=%s", nt, downBits()))
 			}
 		}
-		secs = append(secs, verifh.Section{Cfg: fmt.Sprintf("exp=%d nf=%d stale=report", exp, nf), Ops: ops})
+		secs = append(secs, verifh.Section{Cfg: fmt.Sprintf("exp=%d nf=%d stale=report nodes=%d type=%s place=%s", exp, nf, nodes, typ, place), Ops: ops})
 	}
 	return secs
 }
